@@ -97,3 +97,48 @@ def pool_subset(mask: int) -> dict[str, str]:
     return {p: f"# {p[:-3].upper()} page\n\n" + "".join(ls) for p, ls in files.items()} or {
         "void.zo": "# void\n"
     }
+
+
+K4 = {
+    "big.zo": f"""# BIG page
+
+- 240101#K1 n01 alpha
+o P2 240101#K2 n02 bravo #t1
+- 240101#K3 n03 charlie #t1 #t2
+x P1 240102#K4 n04 delta @c1
+o P1 240102#K5 n05 echo @c1 @c2
+- 240103#K6 n06 foxtrot %p1
+~ 240103#K7 n07 golf +j1 +j2
+< P0 240103#K8 n08 hotel k::v1
+> P9 240104#K9 n09 india k::v2 [[b]]
+- 240104#KA n10 juliet [[b]] [[cee]]
+o 240104#KB n11 kilo
+- 240105#KC n12 lima
+  second line of lima
+o P2 240110 240105#KD n13 mike
+
+{H1R} Alpha
+
+- 240106#KE under alpha
+
+{H2R} Common
+
+- 240106#KF alpha common
+
+{H1R} Beta
+
+{H2R} Common
+
+o P3 240107#KG beta common
+
+{H3R} Deep
+
+{H4R} Deeper
+
+x P3 240108#KH deepest done
+""",
+    "big/x.zo": """# X in big dir #t1
+
+- 240109#KJ note in big slash x
+""",
+}
